@@ -48,12 +48,15 @@
 // EXACTLY (manual mode: the clock is free, now := real(tp) - q*unit for a q that is not a whole
 // number of milliseconds where the unit allows; start mode: the clock is what it is, a form is used
 // only if real(tp) - now is a whole number of its unit).  The form rotates per call:
-// forms[(phase + number of the sleep) % len].  interval(d) gets d = real(Interval) - real(0).
+// forms[(phase + number of the sleep) % len].  interval(d) gets d = real(Interval) - real(0).  With "interval2" a second
+// generator of the same scheduler is made with d2 = real(Interval2) - real(0), THE SAME duration type and its own stop
+// token (IntervalCall(g,..) / IntervalStop(g,..)); which generator a heap entry / promise belongs to is learned from the
+// entry generator g adds at its first sleep (&tag and &waiter are addresses inside its frame): identifier 10 - g.
 //
 // header: {"mode":"manual"|"start","coro":bool,"slots":N,"interval":n,"nc":n,
 //          "tm":{"e":ns,"u":ns,"off":[ns..]},"forms":[..],"phase":k}
 // projection (built by tools/checks/c12.py proj()):
-//   {"destroyed":b,"fut":[{"co","st","tp"}..],"gen":{"st","stp"},"heap":[{"id","k","tp"}..]}
+//   {"destroyed":b,"fut":[{"co","st","tp"}..],"gen":[{"st","stp"},{"st","stp"}],"heap":[{"id","k","tp"}..]}
 //   start mode adds {"cst":[{"st","wat","wst"}..],"now":n,"phase":s,"rq":[..],"res":s,"runs":n}
 //
 // Interposed in THIS executable (no wall clock, no blocking):
@@ -315,17 +318,24 @@ struct World {
     static inline long nsleeps = 0;     // sleeps created in this scenario (all lifetimes): rotates the API form
     static inline std::map<std::string, long> form_uses;
     // interval()
-    int interval = 0;
-    std::stop_source stops;
-    std::optional<cocls::generator<std::size_t>> gen;
-    std::unique_ptr<cocls::future<std::size_t>> gf;
-    bool gen_started = false, gen_stop = false;
-    int gen_sleep = -1;         // index in sleeps of the generator's pending sleep
+    struct Gen {
+        int period = 0;             // model time; 0: no such generator
+        std::stop_source stops;
+        std::optional<cocls::generator<std::size_t>> gen;
+        std::unique_ptr<cocls::future<std::size_t>> gf;
+        bool started = false, stop = false;
+        int sleep = -1;             // index in sleeps of the generator's pending sleep
+        const void *tag = nullptr, *waiter = nullptr;   // &tag / promise id of its sleeps, learned at its first sleep
+    };
+    Gen gens[2];                    // generator g = index + 1
+    bool interval = false;          // any generator
 
     World(const Scenario &sc_, Reporter &rep_) : sc(sc_), rep(rep_) {
         slot.assign((std::size_t) sc.hdr.at("slots").as_int(4) + 1, -1);
         coro = sc.hdr.at("coro").as_bool();
-        interval = (int) sc.hdr.at("interval").as_int(0);
+        gens[0].period = (int) sc.hdr.at("interval").as_int(0);
+        gens[1].period = (int) sc.hdr.at("interval2").as_int(0);
+        interval = gens[0].period || gens[1].period;
         tm.load(sc.hdr.at("tm"));
         for (auto &x : sc.hdr.at("forms").l) {
             const Form *f = form_by_name(x.as_str());
@@ -344,25 +354,28 @@ struct World {
         if (!pid) return 0;
         auto it = by_addr.find(pid);
         if (it != by_addr.end()) return sleeps[it->second].slot;
-        if (gen_sleep >= 0) return sleeps[gen_sleep].slot;   // the generator's `waiter`
+        for (auto &g : gens) if (g.waiter == pid && g.sleep >= 0) return sleeps[g.sleep].slot;   // a generator's `waiter`
         return -1;
     }
     int id_of(const void *p) const {
         if (!p) return 0;
         for (int i = 1; i < 16; i++) if (p == &g_tags[i]) return i;
-        return interval ? INTERVAL_ID : -1;
+        for (int g = 0; g < 2; g++) if (gens[g].tag == p) return INTERVAL_ID - g;
+        return -1;
     }
-    std::string gen_state() {
-        if (!gen_started) return "none";
-        if (!gf->ready()) return "sleep";
+    std::string gen_state(const Gen &g) {
+        if (!g.started) return "none";
+        if (!g.gf->ready()) return "sleep";
         // ready: value -> parked on co_yield; no value -> finished
-        try { (void) gf->value(); return "yield"; }
+        try { (void) g.gf->value(); return "yield"; }
         catch (const cocls::await_canceled_exception &) { return "done"; }
         catch (...) { return "other"; }
     }
     bool is_pending(const Sleep &sl) {
         if (sl.f) return !sl.f->ready();
-        return !sl.gen_done && gen_sleep >= 0 && &sleeps[gen_sleep] == &sl && gen_state() == "sleep";
+        if (sl.co >= 0 || sl.co < -2) return false;
+        const Gen &g = gens[-sl.co - 1];
+        return !sl.gen_done && g.sleep >= 0 && &sleeps[g.sleep] == &sl && gen_state(g) == "sleep";
     }
 
     // ---- "sleep until model time tp" through one of the API forms (see the head comment)
@@ -458,7 +471,7 @@ struct World {
             slot[kv.first] = -1;
             if (idx >= 0) {
                 if (sleeps[idx].f) by_addr.erase(sleeps[idx].f.get());
-                else { sleeps[idx].gen_done = true; if (gen_sleep == idx) gen_sleep = -1; }
+                else { sleeps[idx].gen_done = true; for (auto &g : gens) if (g.sleep == idx) g.sleep = -1; }
             }
         }
         for (auto &kv : expect) {
@@ -498,18 +511,21 @@ struct World {
             fl.push(e);
         }
         m.set("fut", fl);
-        J g = J::map();
-        g.set("st", gen_state());
-        g.set("stp", gen_stop);
-        m.set("gen", g);
+        J gl = J::list();
+        for (auto &gn : gens) {
+            J g = J::map();
+            g.set("st", gen_state(gn));
+            g.set("stp", gn.stop);
+            gl.push(g);
+        }
+        m.set("gen", gl);
         return m;
     }
 
     // tear down without tripping over "destroy of pending future"
     void teardown() {
         s.reset();                 // drops every promise still set
-        gf.reset();
-        gen.reset();
+        for (auto &g : gens) { g.gf.reset(); g.gen.reset(); }
         for (auto &sl : sleeps) {
             if (sl.f && !sl.f->ready()) {
                 if (!rep.failed()) rep.diverge(sc.steps.size() - 1, "a sleep future is still pending after the scheduler was destroyed");
@@ -540,11 +556,15 @@ struct ManualWorld : World {
 
     // one lifetime of a scheduler: executes steps from `k` up to (not including) the next Construct
     std::size_t run(std::size_t k) {
-        if (interval) {
-            // interval(d): d = real(Interval) - real(0), not a whole number of milliseconds; the unit alternates
-            long long d = tm.real(interval) - tm.real(0);
-            if (phase % 2 == 0 && d % 1000 == 0) gen.emplace(s->interval(std::chrono::microseconds(d / 1000), stops.get_token()));
-            else gen.emplace(s->interval(std::chrono::nanoseconds(d), stops.get_token()));
+        // interval(d): d = real(Interval) - real(0), not a whole number of milliseconds; the unit alternates per scenario
+        // and is the same for both generators of the scheduler (one instantiation of interval<Rep,Period>)
+        bool us = phase % 2 == 0;
+        for (auto &g : gens) if (g.period && (tm.real(g.period) - tm.real(0)) % 1000 != 0) us = false;
+        for (auto &g : gens) {
+            if (!g.period) continue;
+            long long d = tm.real(g.period) - tm.real(0);
+            if (us) g.gen.emplace(s->interval(std::chrono::microseconds(d / 1000), g.stops.get_token()));
+            else g.gen.emplace(s->interval(std::chrono::nanoseconds(d), g.stops.get_token()));
         }
         for (; k < sc.steps.size(); k++) {
             const Step &st = sc.steps[k];
@@ -581,30 +601,36 @@ struct ManualWorld : World {
                 else r = s->cancel(idptr(st.iarg(0)), std::make_exception_ptr(CustomExc()));
                 if (r != (st.iarg(2) != 0)) out_bad = std::string("cancel returned ") + (r ? "true" : "false");
                 if (st.iarg(2) != 0) expect[st.iarg(2)] = st.sarg(1);
-            } else if (st.name == "IntervalCall") {
+            } else if (st.name == "IntervalCall") {          // IntervalCall(g, ntf)
+                Gen &g = gens[st.iarg(0) - 1];
                 int kslot = free_slot();
                 long b0 = vt::broadcasts;
-                std::size_t n0 = 0, n1 = 0;
-                s->each([&](auto, auto, auto) { n0++; });
-                gf.reset();
+                std::set<std::pair<const void *, const void *>> before;
+                std::size_t n0 = 0;
+                s->each([&](auto, const void *ident, const void *pid) { n0++; before.insert({ident, pid}); });
+                g.gf.reset();
                 vt::client_call = true;    // the generator reads the clock (next = now()+dur)
-                gf.reset(new cocls::future<std::size_t>((*gen)()));
+                g.gf.reset(new cocls::future<std::size_t>((*g.gen)()));
                 vt::client_call = false;
-                gen_started = true;
-                s->each([&](auto, auto, auto) { n1++; });
+                g.started = true;
+                std::size_t n1 = 0;
+                const void *nident = nullptr, *npid = nullptr;
+                s->each([&](auto, const void *ident, const void *pid) { n1++; if (pid && !before.count({ident, pid})) { nident = ident; npid = pid; } });
                 if (n1 == n0 + 1) {   // the generator went to sleep: a sleep whose future is inside its frame
+                    if (!g.tag) { g.tag = nident; g.waiter = npid; }
                     sleeps.emplace_back();
                     Sleep &sl = sleeps.back();
-                    sl.slot = kslot; sl.tp = interval; sl.co = -1;   // model now is 0 in manual mode
-                    gen_sleep = (int) sleeps.size() - 1;
-                    if (kslot > 0) slot[kslot] = gen_sleep;
+                    sl.slot = kslot; sl.tp = g.period; sl.co = -st.iarg(0);   // model now is 0 in manual mode
+                    g.sleep = (int) sleeps.size() - 1;
+                    if (kslot > 0) slot[kslot] = g.sleep;
                 }
                 bool ntf = vt::broadcasts != b0;
-                if ((int) ntf != st.iarg(0)) out_bad = std::string("interval sleep ") + (ntf ? "notified" : "did not notify");
-            } else if (st.name == "IntervalStop") {
-                stops.request_stop();
-                gen_stop = true;
-                if (st.iarg(0) != 0) expect[st.iarg(0)] = "exc";
+                if ((int) ntf != st.iarg(1)) out_bad = std::string("interval sleep ") + (ntf ? "notified" : "did not notify");
+            } else if (st.name == "IntervalStop") {          // IntervalStop(g, k)
+                Gen &g = gens[st.iarg(0) - 1];
+                g.stops.request_stop();
+                g.stop = true;
+                if (st.iarg(1) != 0) expect[st.iarg(1)] = "exc";
             } else if (st.name == "Destroy") {
                 expect = all_pending_as("canceled");
                 s.reset();
